@@ -579,8 +579,37 @@ func convertRefsInV2SchemaRef(from *openapi3.SchemaRef) *openapi3.SchemaRef {
 		v := *from.Value
 		to.Value = &v
 		to.Value.AdditionalProperties = fromV3AdditionalProperties(to.Value.AdditionalProperties)
+		convertSubschemas(to.Value, convertRefsInV2SchemaRef)
 	}
 	return &to
+}
+
+// convertSubschemas applies conv to the sub-schemas of a copied schema that lie outside its
+// additionalProperties: an additionalProperties schema is an openapi3.SchemaRef in both document
+// versions, so the references below its items, properties and compositions have to be rewritten too.
+func convertSubschemas(v *openapi3.Schema, conv func(*openapi3.SchemaRef) *openapi3.SchemaRef) {
+	if v.Items != nil {
+		v.Items = conv(v.Items)
+	}
+	if v.Not != nil {
+		v.Not = conv(v.Not)
+	}
+	if len(v.Properties) != 0 {
+		props := make(openapi3.Schemas, len(v.Properties))
+		for k, p := range v.Properties {
+			props[k] = conv(p)
+		}
+		v.Properties = props
+	}
+	for _, l := range []*openapi3.SchemaRefs{&v.AllOf, &v.AnyOf, &v.OneOf} {
+		if len(*l) != 0 {
+			refs := make(openapi3.SchemaRefs, len(*l))
+			for i, r := range *l {
+				refs[i] = conv(r)
+			}
+			*l = refs
+		}
+	}
 }
 
 func convertRefsInV3SchemaRef(from *openapi3.SchemaRef) *openapi3.SchemaRef {
@@ -593,6 +622,7 @@ func convertRefsInV3SchemaRef(from *openapi3.SchemaRef) *openapi3.SchemaRef {
 		v := *from.Value
 		to.Value = &v
 		to.Value.AdditionalProperties = toV3AdditionalProperties(to.Value.AdditionalProperties)
+		convertSubschemas(to.Value, convertRefsInV3SchemaRef)
 	}
 	return &to
 }
